@@ -756,15 +756,30 @@ def _enumeration(ctx, fn):
         defs = ctx.flow.defs(f)
 
         def it_text(lp):
-            return ctx.norm.xtext(f, lp.iter)
+            it = lp.iter
+            # `for m, nodes in enumerate(graph.nodes_by_machine)`: the same walk with an index
+            if (
+                isinstance(it, ast.Call) and isinstance(it.func, ast.Name) and it.func.id == "enumerate" and it.args and not it.keywords
+                and isinstance(lp.target, ast.Tuple) and len(lp.target.elts) == 2
+            ):
+                it = it.args[0]
+            return ctx.norm.xtext(f, it)
 
         its = [it_text(lp) for lp in loops]
         # the outer loop's variable is spelled `$v` in the inner iterable, so
         # the comparison does not depend on how the variable is named
-        if len(loops) == 2 and isinstance(loops[1].target, ast.Name):
+        outer_var = None
+        if len(loops) == 2:
+            tg = loops[1].target
+            if isinstance(tg, ast.Name):
+                outer_var = tg.id
+            elif isinstance(tg, ast.Tuple) and len(tg.elts) == 2 and isinstance(tg.elts[1], ast.Name) and isinstance(loops[1].iter, ast.Call) \
+                    and isinstance(loops[1].iter.func, ast.Name) and loops[1].iter.func.id == "enumerate":
+                outer_var = tg.elts[1].id
+        if outer_var is not None:
             import re as _re
 
-            its[0] = _re.sub(r"(?<![A-Za-z0-9_])" + _re.escape(loops[1].target.id) + r"(?![A-Za-z0-9_])", "$v", its[0])
+            its[0] = _re.sub(r"(?<![A-Za-z0-9_])" + _re.escape(outer_var) + r"(?![A-Za-z0-9_])", "$v", its[0])
         exp = [inner] + ([outer] if outer else [])
         bad_single = [
             n for n in own_nodes(f.node)
